@@ -95,7 +95,7 @@ def effstim (E : Env K) (thr atol rtol : K) (o : Obs K) (u : FluxUnit K) (wl : O
           let x ← wavelengthsOr thr o.model wl
           let num ← integrateTrapz E o.model x
           let vb := Tree.bin .mul vm bm
-          let xv ← wavesetOrErr thr vb
+          let xv ← wavelengthsOr thr vb wl      -- the caller's wavelengths when given (fix 673f123)
           let den ← integrateTrapz E vb xv
           validateTotalflux num
           validateTotalflux den
@@ -116,7 +116,7 @@ def effstim (E : Env K) (thr atol rtol : K) (o : Obs K) (u : FluxUnit K) (wl : O
       | .flam => pure val
       | .stmag => toMag E.T (val / E.P.stZero)
       | u' => do
-          let wp ← pivot E thr bm none
+          let wp ← pivot E thr bm wl            -- pivot on the wavelengths the integrals used (fix 673f123)
           convertOne E.P E.T (plainSamp wp) .flam u' val
 
 /-- `normalize(renorm_val, band, wavelengths, force, area, vegaspec)`: the scalar factor applied to
